@@ -5,10 +5,12 @@ import RbModel.WfMarks
 * `(wfm.check <code> <addrs>)` → `(wfm r u t l a c s n <status> <cert>)`: the five structural checks of
   `RbModel.Wf`, `checkCertM` on the inferred certificate, `popRetStrict` (`-` without a certificate), the
   number of `Return`s that rely on the restoring; status `ok` + the certificate, or `(fail kind pc) ()`.
-* `(wfm.run <code> (pc v r c p b (rets…) (gosubs…)) …)`: runs `RbModel.WfMarks.next` from the initial
-  state (pc 0, the depths of the first observation, no frames) along the observed pcs, comparing the
-  machine's pc, absolute depths and the two address stacks with every observation →
-  `(ok n)` | `(blocked k why)` | `(differ k what pc (v r c p b) (rets…) (gosubs…))` (the machine's state). -/
+* `(wfm.run <code> (pc v r c p b (rets…) (gosubs…) ((r g v p)…) ((r v)…)) …)`: runs `RbModel.WfMarks.next`
+  from the initial state (pc 0, the depths of the first observation, no frames) along the observed pcs,
+  comparing the machine's pc, absolute depths, the two address stacks and the recorded heights
+  (`return_marks`, `go_sub_marks`; everything top first) with every observation →
+  `(ok n)` | `(blocked k why)` | `(differ k what pc (v r c p b) (rets…) (gosubs…) (return marks…) (gosub marks…))`
+  (the machine's state). -/
 namespace RbModel.Drv.WfMarks
 open RbModel RbModel.Wf RbModel.WfMarks
 
@@ -19,10 +21,25 @@ private def hStr (h : H) : String :=
 
 private def natsStr (l : List Nat) : String := "(" ++ " ".intercalate (l.map toString) ++ ")"
 
-private def obsOfSexp : Sexp → Option Obs
-  | .list [pc, v, r, c, p, bq, rets, gosubs] => do
-      pure ⟨← pc.nat?, ⟨← v.nat?, ← r.nat?, ← c.nat?, ← p.nat?, ← bq.nat?⟩, ← rets.nats?, ← gosubs.nats?⟩
+private def quad? : Sexp → Option (Nat × Nat × Nat × Nat)
+  | .list [a, b, c, d] => do pure (← a.nat?, ← b.nat?, ← c.nat?, ← d.nat?)
   | _ => none
+
+private def pair? : Sexp → Option (Nat × Nat)
+  | .list [a, b] => do pure (← a.nat?, ← b.nat?)
+  | _ => none
+
+private def obsOfSexp : Sexp → Option Obs
+  | .list [pc, v, r, c, p, bq, rets, gosubs, .list rm, .list gm] => do
+      pure ⟨← pc.nat?, ⟨← v.nat?, ← r.nat?, ← c.nat?, ← p.nat?, ← bq.nat?⟩, ← rets.nats?, ← gosubs.nats?,
+        ← rm.mapM quad?, ← gm.mapM pair?⟩
+  | _ => none
+
+private def quadsStr (l : List (Nat × Nat × Nat × Nat)) : String :=
+  "(" ++ " ".intercalate (l.map fun (a, b, c, d) => s!"({a} {b} {c} {d})") ++ ")"
+
+private def pairsStr (l : List (Nat × Nat)) : String :=
+  "(" ++ " ".intercalate (l.map fun (a, b) => s!"({a} {b})") ++ ")"
 
 def handle (cmd : String) (args : List Sexp) : Option String :=
   match cmd, args with
@@ -47,7 +64,7 @@ def handle (cmd : String) (args : List Sexp) : Option String :=
           | .ok n => s!"(ok {n})"
           | .blocked k why => s!"(blocked {k} {why})"
           | .differ k what s =>
-            s!"(differ {k} {what} {s.pc} {hStr s.h} {natsStr (retAddrs s.frames)} {natsStr (gosubAddrs s.frames)})")
+            s!"(differ {k} {what} {s.pc} {hStr s.h} {natsStr (retAddrs s.frames)} {natsStr (gosubAddrs s.frames)} {quadsStr (retMarks s.frames)} {pairsStr (gosubMarks s.frames)})")
   | _, _ => none
 
 end RbModel.Drv.WfMarks
